@@ -265,6 +265,21 @@ pub fn commit_from(src: &mut Src, sh: Shape, barrier: usize, deps: Deps, new_r: 
         s += 1;
     }
     assert!(found == 1, "C04: the new system's id is not tabulated exactly once");
+    // where it went: never in front of the barrier (the decision is insertion_target's, insert must follow it)
+    let mut s = 0;
+    while s < MS {
+        if s < ns && s < barrier {
+            let ng = b.verif_stage_lens(s)[0];
+            let mut g = 0;
+            while g < MG {
+                if g < ng {
+                    assert!(has_id(&b, s, g, n) == 0, "C03: insert placed the system in a stage in front of the barrier");
+                }
+                g += 1;
+            }
+        }
+        s += 1;
+    }
     assert!(total_ids == n + 1, "C04: the number of tabulated systems did not grow by exactly one");
     assert!(b.verif_barrier() == barrier, "C03: insert moved the barrier");
     std::mem::forget(b);
